@@ -30,7 +30,7 @@ def _tlc_programs(cfg_text, name, timeout, workers=6):
     return r, G.parse_prog_lines(r.out)
 
 
-def _cfg(roots, max_open, max_mid, full, rep, full_depth):
+def _cfg(roots, max_open, max_mid, full, rep, full_depth, full_mid):
     return """SPECIFICATION Spec
 CONSTANTS
     Roots <- %s
@@ -39,10 +39,11 @@ CONSTANTS
     FamsFull <- %s
     FamsRep <- %s
     FullDepth = %d
+    FullMid = %d
 INVARIANT Emit
 INVARIANT ReportHoles
 CHECK_DEADLOCK FALSE
-""" % (roots, max_open, max_mid, full, rep, full_depth)
+""" % (roots, max_open, max_mid, full, rep, full_depth, full_mid)
 
 
 def ws_dir(tag):
@@ -216,10 +217,14 @@ def select(recs, tier, rng):
         elif r["hazard"]:
             k = ("h", r["fam"], r["path"], r["why"], r["hk"] if r["fam"] in rep else "", r["ctlkind"] if r["fam"] in rep else "")
             cells.setdefault(k, []).append(i)
+            # every way of opening a receiver x every escape route (statement-kind coverage does not depend on luck)
+            pre = tuple(s["op"] + ":" + s["a"] for s in r["prog"][:next(j for j, s in enumerate(r["prog"]) if s["op"] == "Produce")])
+            cells.setdefault(("o", pre, r["why"], r["ctlkind"]), []).append(i)
         else:
             k = ("s", r["fam"] if r["fam"] in rep else "", r["path"], r["hk"], r["rej"], tuple(s["op"] for s in r["prog"]))
             cells.setdefault(k, []).append(i)
-    return [recs[rng.choice(v)] for v in cells.values()]
+    picked = sorted({rng.choice(v) for v in cells.values()})
+    return [recs[i] for i in picked]
 
 
 def check_c04(tier):
@@ -229,9 +234,9 @@ def check_c04(tier):
     rng = random.Random(seed())
     wd = workdir("C04")
     # ---- 1. TLC: behaviours of Lifetimes.tla, classified, with validated controls -------------------------------
-    runs = [("families", _cfg("AllRoots", 1, 2, "AllFams", "RepFams", 1), 900)]
+    runs = [("families", _cfg("AllRoots", 1, 2, "AllFams", "RepFams", 1, 2 if thorough else 1), 1500)]
     if thorough:
-        runs.append(("depth2", _cfg("ArenaRoots", 2, 2, "NoFams", "RepFams", 0), 2400))
+        runs.append(("depth2", _cfg("ArenaRoots", 2, 2, "NoFams", "RepFams", 0, 2), 2400))
     recs, states, trans, tlc_wall = [], 0, 0, 0.0
     seen = set()
     for name, cfg_text, to in runs:
@@ -303,7 +308,7 @@ def check_c04(tier):
                "accepted": not e, "codes": norm_codes(e),
                "fam": (rec or {}).get("fam", "") or next((s["a"] for s in p["prog"] if s["op"] == "Produce"), ""),
                "why": (rec or {}).get("why", ""),
-               "ops": sorted({s["op"] + (":" + s["a"] if s["op"] in ("Scoped", "Guard", "Reset", "PoolReset", "Spawn", "ExitClosure", "Convert") and s["a"] else "")
+               "ops": sorted({s["op"] + (":" + s["a"] if s["op"] in ("Scoped", "Guard", "Reset", "PoolReset", "Spawn", "ExitClosure", "Convert", "AsScope", "AsMutScope") and s["a"] else "")
                               for s in p["prog"]})}
         rows.append(row)
     write_ndjson(obs, rows)
@@ -357,9 +362,9 @@ def check_c04(tier):
     # ---- 6. non-vacuity ----------------------------------------------------------------------------------------
     famsH, famsC, whyH, opsH, opsC = union("FAMSH") - {""}, union("FAMSC") - {""}, union("WHYH"), union("OPSH"), union("OPSC")
     need_why = {"closure_exit", "closure_return", "drop_guard", "block_end", "guard_reset", "second_scope", "reset",
-                "reset_to_start", "pool_reset", "pool_reset_to_start", "drop_bump", "drop_pool", "thread_drop",
+                "reset_to_start", "replace", "pool_reset", "pool_reset_to_start", "pool_bumps_clear", "drop_bump", "drop_pool", "thread_drop",
                 "thread_scoped_move", "thread_static_move", "thread_scoped_refmut", "thread_scoped_share"}
-    need_ops = {"RefShr", "RefMut", "AsScope", "AsMutScope", "Scoped:scoped", "Scoped:scoped_aligned", "Aligned", "Guard",
+    need_ops = {"RefShr", "RefMut", "AsScope", "AsMutScope", "Scoped:scoped", "Scoped:scoped_aligned", "Scoped:scoped_trait", "AsScope:from", "AsMutScope:from", "Aligned", "Guard",
                 "Guard:block", "GScope", "Claim", "ByValue", "PoolGet", "Produce", "Use"}
     missing = {"families without a rejected hazardous program": sorted(G.ALL_FAMS - famsH),
                "families without an accepted control": sorted(G.ALL_FAMS - famsC),
